@@ -356,7 +356,7 @@ class RequestLimits(Stream):
             "SERVER_PORT": "80",
             "PATH_INFO": "/",
             "QUERY_STRING": "",
-            "CONTENT_TYPE": "application/x-www-form-urlencoded" if case["kind"] == "url" else "multipart/form-data; boundary=" + unhx(case["b"]).decode("latin1"),
+            "CONTENT_TYPE": "application/x-www-form-urlencoded" if case["kind"] == "url" else 'multipart/form-data; boundary="' + unhx(case["b"]).decode("latin1") + '"',
         }
         if case["cl"]:
             env["CONTENT_LENGTH"] = str(len(body))
@@ -392,7 +392,7 @@ class RequestLimits(Stream):
                 why = f"urlencoded body of {L} bytes > max_form_memory_size={case['mm']}"
         elif readable:
             ev, err, _ = decode_real(unhx(case["b"]), [body])
-            if err is None:
+            if err is None and not free.startswith("EXC"):
                 parts = parts_of(ev)
                 if case["mp"] is not None and len(parts) > case["mp"]:
                     why = f"{len(parts)} parts > max_form_parts={case['mp']}"
